@@ -45,7 +45,7 @@ CLAIMED = {
  'C19': dict(world='TABLE (twin)', tech='deterministic simulation of twin worlds driven by one seed: a program of facade calls (named Prefix / nested Prefix / Resource objects, Handle, Remove, Clean, URL, Use) and its desugaring into plain Router calls, same op interleaving; observation-log equality after every step',
              text='World F executes the facade program, world D its translation into Router.Handle/Remove/URL with concatenated patterns and middleware lists; after every step Routes(), the dispatch outcome, Allow set and middleware trace of every method on every witness, 404 / OPTIONS * / TRACE, URL results, the factory-call multiset and whether the step panicked must be equal.',
              note='Prefix.Clean has no Router counterpart: D removes exactly the model\'s patterns that start with the prefix', ref='§5 C19'),
- 'C07': dict(world='CONC', tech='deterministic simulation of goroutine interleavings across distinct instances and of concurrent requests on a quiescent router (seeded scheduler, adversarial simulated context pool), race detector with hidden hand-offs, solo/sequential replicas; fresh-process pairs for the fresh-router clause; every world cold in its own process',
+ 'C07': dict(world='CONC', tech='deterministic simulation of goroutine interleavings across distinct instances (routers, Hosts, groups, routers of one shared group) and of concurrent requests (some with nested sub-requests) on a quiescent router (seeded scheduler, adversarial simulated context pool), race detector with hidden hand-offs, solo/sequential replicas; fresh-process pairs for the fresh-router clause; every world cold in its own process',
              text='(b) 2-3 distinct instances (Router, locked Router, Router with TRACE, Hosts, Group), one owner task each, interleaved at statement level: race detector + each task\'s log must equal the log of the same script run alone; (c) a quiescent router (locked or not) serving 2-6 client tasks with globally unique parameter values while the simulated pool reuses contexts adversarially: race detector, parameters read on entry and again after yielding must be the request\'s own, answers equal a sequential replica; (d) a router observed after unrelated routers/Hosts/Groups were used must give the same observation log as the same router built first thing in a fresh child process.',
              note='every C07 world runs without warm-up in its own process (first use of process-wide state is what is examined), so the in-process determinism re-check is replaced by the cross-process self-test', ref='§5 C07'),
  'C16': dict(world='FAULT', tech='deterministic simulation with fault injection: panics armed at every user-code site (handler of each kind before/after writing, each middleware layer before/after next, group not-found) x panic values x sequences of faulting and normal requests; sequential and, on locked routers/groups, concurrent under the seeded scheduler and the race detector; fault-free twin',
